@@ -118,6 +118,7 @@ def numeric_keys_case(rng):
     j = Obj([(k, val()) for k in keys])
     if not gv.float64_ok(j):
         return None
+    pool = list(dict.fromkeys(keys + NUMKEYS[:6]))       # no name twice: duplicate object keys are outside every property
     o = Obj()
     for _ in range(rng.choice([1, 1, 2, 3])):
         r = rng.random()
@@ -129,9 +130,9 @@ def numeric_keys_case(rng):
             if rng.random() < 0.6:
                 o.set("additionalProperties", rng.random() < 0.3)
         elif r < 0.77:
-            o.set("required", rng.sample(keys + NUMKEYS[:6], rng.randint(1, 2)))
+            o.set("required", rng.sample(pool, rng.randint(1, 2)))
         elif r < 0.87:
-            o.set("properties", Obj([(k, schema_for(rng, gv.gen_json(rng, 0))) for k in rng.sample(keys + NUMKEYS[:6], 2)]))
+            o.set("properties", Obj([(k, schema_for(rng, gv.gen_json(rng, 0))) for k in rng.sample(pool, 2)]))
             if rng.random() < 0.5:
                 o.set("additionalProperties", rng.random() < 0.3)
         elif r < 0.93:
